@@ -17,6 +17,8 @@ package flow
 import (
 	"encoding/json"
 	"fmt"
+
+	"github.com/alibaba/sentinel-golang/core/config"
 )
 
 // RelationStrategy indicates the flow control strategy based on the relation of invocations.
@@ -141,7 +143,18 @@ func (r *Rule) isStatReusable(newRule *Rule) bool {
 	}
 	return r.Resource == newRule.Resource && r.RelationStrategy == newRule.RelationStrategy &&
 		r.RefResource == newRule.RefResource && r.StatIntervalInMs == newRule.StatIntervalInMs &&
-		r.needStatistic() && newRule.needStatistic()
+		r.needStatistic() && newRule.needStatistic() &&
+		// (a warm-up rule counted per the whole length of the resource's statistic has a statistic of its
+		// own, see generateStatFor: it must not take over the shared one from a rule that is not, nor
+		// hand its own one to such a rule)
+		r.needsOwnStatisticForWarmUp() == newRule.needsOwnStatisticForWarmUp()
+}
+
+// needsOwnStatisticForWarmUp: see generateStatFor.
+func (r *Rule) needsOwnStatisticForWarmUp() bool {
+	return r.TokenCalculateStrategy == WarmUp && r.StatIntervalInMs != 0 && r.StatIntervalInMs != config.MetricStatisticIntervalMs() &&
+		r.StatIntervalInMs <= config.GlobalStatisticIntervalMsTotal() &&
+		r.StatIntervalInMs+config.GlobalStatisticBucketLengthInMs() > config.GlobalStatisticIntervalMsTotal()
 }
 
 func (r *Rule) needStatistic() bool {
